@@ -575,7 +575,16 @@ class Interp:
         return ("list", [self.eval(x) for x in e["e"]])
 
     def e_struct(self, e):
-        return ("enum", e["p"], {f["n"]: self.eval(f["e"]) for f in e["fields"] if self.active(f)})
+        fields = {f["n"]: self.eval(f["e"]) for f in e["fields"] if self.active(f)}
+        if e.get("rest") is not None:
+            # struct update syntax `S { a: x, ..base }`: the remaining fields come from base
+            base = self.eval(e["rest"])
+            if isinstance(base, tuple) and base[:1] == ("enum",) and len(base) > 2 and isinstance(base[2], dict):
+                for k, v in base[2].items():
+                    fields.setdefault(k, v)
+            else:
+                raise Unknown("struct update from a base that could not be evaluated (%s)" % (e["rest"].get("s") or "")[:40])
+        return ("enum", e["p"], fields)
 
     def e_try(self, e):
         v = self.eval(e["e"])
